@@ -42,6 +42,12 @@ def ref_element(kind, b, id_="r", rnd=None):
     if kind == "rect":
         return f'<rect id="{id_}" x="{q(x1)}" y="{q(y1)}" width="{q(w)}" height="{q(h)}"/>'
     if kind == "box":
+        # (an invisible box is placed like a rect: by its corner, its centre or its far corner)
+        sp = rnd.randrange(3) if rnd is not None else 0
+        if sp == 1:
+            return f'<box id="{id_}" cxy="{q(x1 + w / 2)} {q(y1 + h / 2)}" wh="{q(w)} {q(h)}"/>'
+        if sp == 2:
+            return f'<box id="{id_}" xy2="{q(x2)} {q(y2)}" wh="{q(w)} {q(h)}"/>'
         return f'<box id="{id_}" x="{q(x1)}" y="{q(y1)}" width="{q(w)}" height="{q(h)}"/>'
     if kind == "circle":
         return f'<circle id="{id_}" cx="{q(x1 + w / 2)}" cy="{q(y1 + h / 2)}" r="{q(w / 2)}"/>'
